@@ -3,8 +3,10 @@
 import glob, json, os, subprocess
 V = os.path.dirname(os.path.dirname(os.path.abspath(__file__)))
 props = {}
+claimed = open(os.path.join(V, "tools", "claimed.txt")).read().split()
 for p in sorted(glob.glob(os.path.join(V, "props", "C*.json"))):
-    props[os.path.basename(p)[:-5]] = json.load(open(p))
+    if os.path.basename(p)[:-5] in claimed:
+        props[os.path.basename(p)[:-5]] = json.load(open(p))
 na = json.load(open(os.path.join(V, "na.json")))
 hooks = subprocess.run(["git", "-C", "/repo", "log", "--format=%h %s"], capture_output=True, text=True).stdout.splitlines()
 hook_commits = [l.split()[0] for l in hooks if "verif hook" in l]
